@@ -1,0 +1,160 @@
+//go:build verif
+
+// Package verifhook provides named hook points for external verification
+// tooling. With the "verif" build tag a hook point counts its hits and can,
+// on request (environment or in-process API), kill the process at the n-th hit
+// of a site, yield the processor, or call back into the test harness.
+package verifhook
+
+import (
+	"fmt"
+	"os"
+	"runtime"
+	"sort"
+	"strconv"
+	"strings"
+	"sync"
+	"sync/atomic"
+	"syscall"
+	"time"
+)
+
+// Enabled reports whether the hooks are compiled in.
+const Enabled = true
+
+var (
+	mu        sync.Mutex
+	counts    = map[string]*int64{}
+	crashSite atomic.Pointer[string]
+	crashN    atomic.Int64
+	yieldPm   atomic.Int64
+	yieldSeed atomic.Uint64
+	journalFd = -1
+	callback  atomic.Pointer[func(string)]
+)
+
+func init() {
+	if v := os.Getenv("VERIF_CRASH"); v != "" {
+		if i := strings.LastIndex(v, ":"); i > 0 {
+			n, _ := strconv.ParseInt(v[i+1:], 10, 64)
+			SetCrash(v[:i], n)
+		}
+	}
+	if v := os.Getenv("VERIF_YIELD"); v != "" {
+		p := strings.SplitN(v, ":", 2)
+		if len(p) == 2 {
+			s, _ := strconv.ParseUint(p[0], 10, 64)
+			pm, _ := strconv.ParseInt(p[1], 10, 64)
+			SetYield(s, pm)
+		}
+	}
+	if v := os.Getenv("VERIF_JOURNAL_FD"); v != "" {
+		journalFd, _ = strconv.Atoi(v)
+	}
+}
+
+// SetCrash arms a process death (SIGKILL to self) at the n-th hit of site,
+// counted from now. An empty site disarms it.
+func SetCrash(site string, n int64) {
+	if site == "" {
+		crashSite.Store(nil)
+		return
+	}
+	c := counter(site)
+	crashN.Store(atomic.LoadInt64(c) + n)
+	crashSite.Store(&site)
+}
+
+// SetJournalFd sets the descriptor that receives the "CRASH site n" line.
+func SetJournalFd(fd int) { journalFd = fd }
+
+// SetYield makes permille of all hook hits yield the processor or sleep for
+// 20-500 microseconds, chosen by a hash of (seed, site, hit number).
+func SetYield(seed uint64, permille int64) {
+	yieldSeed.Store(seed)
+	yieldPm.Store(permille)
+}
+
+// Set installs an in-process callback invoked at every hook point (nil removes it).
+func Set(f func(string)) {
+	if f == nil {
+		callback.Store(nil)
+		return
+	}
+	callback.Store(&f)
+}
+
+// Counts returns a snapshot of the hit counters.
+func Counts() map[string]int64 {
+	mu.Lock()
+	defer mu.Unlock()
+	r := map[string]int64{}
+	for k, v := range counts {
+		r[k] = atomic.LoadInt64(v)
+	}
+	return r
+}
+
+// ResetCounts sets every hit counter back to zero.
+func ResetCounts() {
+	mu.Lock()
+	defer mu.Unlock()
+	for _, v := range counts {
+		atomic.StoreInt64(v, 0)
+	}
+}
+
+// DumpCounts writes "site count" lines to the file.
+func DumpCounts(path string) {
+	c := Counts()
+	var ks []string
+	for k := range c {
+		ks = append(ks, k)
+	}
+	sort.Strings(ks)
+	var b strings.Builder
+	for _, k := range ks {
+		fmt.Fprintf(&b, "%s %d\n", k, c[k])
+	}
+	os.WriteFile(path, []byte(b.String()), 0644)
+}
+
+func counter(site string) *int64 {
+	mu.Lock()
+	defer mu.Unlock()
+	c := counts[site]
+	if c == nil {
+		c = new(int64)
+		counts[site] = c
+	}
+	return c
+}
+
+// Point marks a named site.
+func Point(site string) {
+	n := atomic.AddInt64(counter(site), 1)
+	if cs := crashSite.Load(); cs != nil && *cs == site && n == crashN.Load() {
+		if journalFd >= 0 {
+			syscall.Write(journalFd, []byte(fmt.Sprintf("CRASH %s %d\n", site, n)))
+		}
+		syscall.Kill(syscall.Getpid(), syscall.SIGKILL)
+		select {}
+	}
+	if f := callback.Load(); f != nil {
+		(*f)(site)
+	}
+	if pm := yieldPm.Load(); pm > 0 {
+		x := yieldSeed.Load() ^ uint64(n)*0x9E3779B97F4A7C15
+		for _, ch := range []byte(site) {
+			x = (x ^ uint64(ch)) * 0x100000001B3
+		}
+		x ^= x >> 29
+		if int64(x%1000) < pm {
+			if x&1024 == 0 {
+				runtime.Gosched()
+			} else {
+				time.Sleep(time.Duration(20+(x>>11)%480) * time.Microsecond)
+			}
+		}
+	}
+}
